@@ -226,7 +226,8 @@ class TrajectoryConstraintsRemover(engines.engine.Engine, CompilerMixin):
         new_problem.add_goal(G_new)
         new_problem.clear_trajectory_constraints()
         for fluent in F_prime:
-            new_problem.add_fluent(fluent)
+            # a monitoring atom that does not hold initially is false (not undefined)
+            new_problem.add_fluent(fluent, default_initial_value=False)
         new_problem.clear_actions()
         for action in A_prime:
             new_problem.add_action(action)
